@@ -552,6 +552,17 @@ def run_job(job):
             else:
                 with open(p, "wb") as f:
                     f.write(content.encode("latin-1"))
+        for name, how in (job.get("pre_links") or {}).items():
+            # a symbolic link in the output directory under the name of a report, pointing outside it (to an existing file or to
+            # nothing): the run may replace the link, it must not write through it
+            os.makedirs(outdir, exist_ok=True)
+            filed = os.path.join(d, "filed")
+            os.makedirs(filed, exist_ok=True)
+            target = os.path.join(filed, ("kept_" if how == "existing" else "not_there_") + name)
+            if how == "existing":
+                with open(target, "wb") as f:
+                    f.write(b"a report filed earlier; not to be touched")
+            os.symlink(target, os.path.join(outdir, name))
         env = {"PATH": "/usr/bin:/bin", "HOME": d, "LANG": "C.UTF-8",
                "PYTHONHASHSEED": str(job.get("hashseed", 0)), "PYTHONDONTWRITEBYTECODE": "1",
                "PYTHONPATH": os.path.join(core.REPO, "src")}
